@@ -36,7 +36,9 @@ def run(ctx):
                            stdout=subprocess.PIPE, stderr=subprocess.PIPE, text=True, timeout=600)
     if child.returncode != 0:
         ctx.corr_mismatch.append({'what': 'fresh subprocess failed', 'case': None, 'model': None, 'impl': child.stderr[-2000:]}); return
-    fresh = json.loads(child.stdout)
+    child_out = json.loads(child.stdout)
+    fresh = child_out['docs']
+    judge_value_prefixes(ctx, child_out['value_prefix'], 'fresh process')
     # ---- correspondence: op histories ------------------------------------------------
     probe = text.P()
     pool = ['urn:verif:c14:%d' % i for i in range(12)] + ['', None, X.TEXTNS, 'http://www.w3.org/1999/xlink', 'urn:q"uote\'s', 'urn:amp&<>']
@@ -100,28 +102,20 @@ def check_decls(ctx, name, decls):
     if any(not u for u in us): ctx.violation('empty-namespace-bound', name, decls, 'never', {})
 
 def value_prefixes(ctx):
-    """table:formula / namespaced tokens: the prefix used in the value must be declared and bound to the source's namespace"""
-    from odf.opendocument import load
-    OF = 'urn:oasis:names:tc:opendocument:xmlns:of:1.2'
-    cases = [('known-prefix', 'of', OF, 'of:=SUM([.A1])'), ('own-prefix-for-known-namespace', 'calc', OF, 'calc:=SUM([.A1])'),
-             ('foreign-namespace', 'msoxl', 'http://schemas.microsoft.com/office/excel/formula', 'msoxl:=SUM(A1)')]
-    for tag, pfx, uri, formula in cases:
-        body = ('<table:table table:name="T"><table:table-column/><table:table-row><table:table-cell table:formula="%s"><text:p>1</text:p>'
-                '</table:table-cell></table:table-row></table:table>') % P.xml_attr(formula)
-        pk = P.simple_package(body, extra_ns={pfx: uri})
-        doc = load(io.BytesIO(pk))
-        out = doc.contentxml()
+    judge_value_prefixes(ctx, c14_docs.value_prefix_results(), 'after history')
+
+def judge_value_prefixes(ctx, results, when):
+    """the prefix used in the value must be declared and bound to the namespace the source bound it to"""
+    for r in results:
         ctx.oracle_cases += 1
-        decls = dict(c14_docs.decl_table(out))
-        tree = X.expat_parse(out)
-        val = find_formula(tree[1]) if tree[0] == 'ok' else None
+        val = r['value']; decls = dict(tuple(x) for x in r['decls'])
         used = val.split(':', 1)[0] if val and ':' in val else None
         if val is None or used is None:
-            ctx.violation('value-prefix', {'case': tag, 'formula': formula}, val, 'formula kept', {'kind': tag}); continue
-        if decls.get(used) != uri:
-            ctx.violation('value-prefix', {'case': tag, 'formula': formula, 'declared': pfx + '=' + uri}, {'value': val, 'prefix_bound_to': decls.get(used)},
-                          'prefix %r declared and bound to %s' % (used, uri), {'kind': tag})
-        ctx.nt(('value-prefix', tag))
+            ctx.violation('value-prefix', {'case': r['case'], 'formula': r['formula'], 'when': when}, val, 'value kept', {'kind': r['case']}); continue
+        if decls.get(used) != r['uri']:
+            ctx.violation('value-prefix', {'case': r['case'], 'formula': r['formula'], 'declared_in_source': r['prefix'] + '=' + r['uri'], 'when': when},
+                          {'value': val, 'prefix_bound_to': decls.get(used)}, 'prefix %r declared and bound to %s' % (used, r['uri']), {'kind': r['case']})
+        ctx.nt(('value-prefix', r['case'], when))
 
 def find_formula(t):
     if t[0] != 'E': return None
